@@ -245,3 +245,31 @@ def r14_map_or(cut):
     if n:
         cut.log.append("R14 x%d Option::map_or(d, |x| e) -> match" % n)
     return n
+
+
+def r19_filter(cut):
+    """R19 (generic): RECV.filter(|c| BODY) -> match RECV { Some(__x) => { let c = &__x; if BODY { Some(__x) } else { None } }, None => None }
+    (definition of Option::filter) for a receiver chain without nested parentheses and a block-free or single-block closure body."""
+    pat = re.compile(r"((?:&?\*?self|\w+)(?:\s*\.\s*\w+(?:\([^()]*\))?)*)\s*\.\s*filter\(\s*\|(\w+)\|\s*")
+    n = 0
+    while True:
+        m = pat.search(cut.text)
+        if not m:
+            break
+        # closure body: up to the parenthesis closing `.filter(`
+        from vf.rustcut import mask, match_brace
+        mk = mask(cut.text)
+        op = mk.rfind("(", m.start(), m.end())
+        op = cut.text.find("filter(", m.start()) + len("filter")
+        cp = match_brace(mk, op, "(", ")")
+        body = cut.text[m.end():cp].strip()
+        if body.startswith("{") and body.endswith("}"):
+            body = body[1:-1].strip()
+        new = "(match %s { Some(__x) => { let %s = &__x; if %s { Some(__x) } else { None } }, None => None })" % (m.group(1), m.group(2), body)
+        cut.text = cut.text[:m.start()] + new + cut.text[cp + 1:]
+        n += 1
+        if n > 8:
+            break
+    if n:
+        cut.log.append("R19 x%d Option::filter(|c| p) -> match" % n)
+    return n
